@@ -159,7 +159,13 @@ def run(repo: Repo) -> Result:
                 carry = v.right
                 if isinstance(carry, ast.Name) and carry.id in assigns:
                     carry = assigns[carry.id]
+                carry_name = v.right.id if isinstance(v.right, ast.Name) else None
+                branch_assigns = [(st_, {_canon7(c_) for c_ in cs_}) for st_, cs_ in _conds7(gb.node) if isinstance(st_, ast.Assign) and len(st_.targets) == 1 and is_name(st_.targets[0], carry_name)] if carry_name else []
                 if isinstance(carry, ast.IfExp) and attr_chain(carry.body) == [bparam, "size"] and _canon7(carry.test) == is_lim and isinstance(carry.orelse, ast.Constant) and carry.orelse.value == 0:
+                    carried = True
+                elif len(branch_assigns) >= 2 and all((attr_chain(st_.value) == [bparam, "size"] and is_lim in cc_) or (isinstance(st_.value, ast.Constant) and st_.value.value == 0 and not_lim in cc_) for st_, cc_ in branch_assigns) and any(attr_chain(st_.value) == [bparam, "size"] for st_, _ in branch_assigns):
+                    # the same conditional written as a statement: the parent's size under the
+                    # isinstance test, 0 under its negation
                     carried = True
                 elif attr_chain(carry) == [bparam, "size"] and is_lim in cc7:
                     carried = True
